@@ -270,26 +270,26 @@ def Returned (T : Stat) (v : Int) (n : Nat) (st0 : State) (pos : List Item) (o :
 
 /-- What the run of the items of a statement (ending at position `pos` with context `o`) achieves,
     by outcome of the C execution. -/
-def Post (T : Stat) (lp : Bool) (brk cont : String) (st0 : State) (pos : List Item) (o : SCtx) :
+def Post (T : Stat) (lp : Bool × Bool) (brk cont : String) (st0 : State) (pos : List Item) (o : SCtx) :
     CSem2.Outcome → Prop
   | .normal s' => o.jump = none ∧ ∃ n env' M', T.Reach n st0 (T.at env' M' pos) ∧
       SInv T.S.cs T.σ T.vtys s' env' M'
-  | .brk s' => lp = true ∧ ∃ n env' M', SInv T.S.cs T.σ T.vtys s' env' M' ∧ JumpedTo T brk n st0 env' M' pos o
-  | .cont s' => lp = true ∧ ∃ n env' M', SInv T.S.cs T.σ T.vtys s' env' M' ∧ JumpedTo T cont n st0 env' M' pos o
+  | .brk s' => lp.1 = true ∧ ∃ n env' M', SInv T.S.cs T.σ T.vtys s' env' M' ∧ JumpedTo T brk n st0 env' M' pos o
+  | .cont s' => lp.2 = true ∧ ∃ n env' M', SInv T.S.cs T.σ T.vtys s' env' M' ∧ JumpedTo T cont n st0 env' M' pos o
   | .ret v => ∃ n, Returned T v n st0 pos o
 
 /-- The same after the block has been closed by the next label: nothing is pending any more. -/
-def Done (T : Stat) (lp : Bool) (brk cont : String) (st0 : State) (pos : List Item) :
+def Done (T : Stat) (lp : Bool × Bool) (brk cont : String) (st0 : State) (pos : List Item) :
     CSem2.Outcome → Prop
   | .normal s' => ∃ n env' M', T.Reach n st0 (T.at env' M' pos) ∧ SInv T.S.cs T.σ T.vtys s' env' M'
-  | .brk s' => lp = true ∧ ∃ n env' M' st, SInv T.S.cs T.σ T.vtys s' env' M' ∧ T.Reach n st0 st ∧
+  | .brk s' => lp.1 = true ∧ ∃ n env' M' st, SInv T.S.cs T.σ T.vtys s' env' M' ∧ T.Reach n st0 st ∧
       AtLabel T.S brk env' M' st
-  | .cont s' => lp = true ∧ ∃ n env' M' st, SInv T.S.cs T.σ T.vtys s' env' M' ∧ T.Reach n st0 st ∧
+  | .cont s' => lp.2 = true ∧ ∃ n env' M' st, SInv T.S.cs T.σ T.vtys s' env' M' ∧ T.Reach n st0 st ∧
       AtLabel T.S cont env' M' st
   | .ret v => ∃ n st r, T.Reach n st0 st ∧ step T.S.p T.S.ext st = .done (.ret (.scalar r)) T.S.x.tr ∧
       RetRep T.ret v r
 
-theorem Done.post {T : Stat} {lp : Bool} {brk cont : String} {st0 : State} {pos : List Item} {o : SCtx}
+theorem Done.post {T : Stat} {lp : Bool × Bool} {brk cont : String} {st0 : State} {pos : List Item} {o : SCtx}
     {out : CSem2.Outcome} (h : Done T lp brk cont st0 pos out) (hj : o.jump = none) :
     Post T lp brk cont st0 pos o out := by
   cases out with
@@ -305,7 +305,7 @@ theorem Done.post {T : Stat} {lp : Bool} {brk cont : String} {st0 : State} {pos 
     exact ⟨n, Or.inr ⟨st, r, h1, h2, h3⟩⟩
 
 /-- prefix a run -/
-theorem Post.prepend {T : Stat} {lp : Bool} {brk cont : String} {st0 st1 : State} {pos : List Item}
+theorem Post.prepend {T : Stat} {lp : Bool × Bool} {brk cont : String} {st0 st1 : State} {pos : List Item}
     {o : SCtx} {out : CSem2.Outcome} {m : Nat} (hr : T.Reach m st0 st1)
     (h : Post T lp brk cont st1 pos o out) : Post T lp brk cont st0 pos o out := by
   cases out with
@@ -331,7 +331,7 @@ theorem Post.prepend {T : Stat} {lp : Bool} {brk cont : String} {st0 st1 : State
     · exact Or.inl ⟨env', M', val, r0, hj, hr.trans h3, h4, h5⟩
     · exact Or.inr ⟨st, r, hr.trans h3, h4, h5⟩
 
-theorem Done.prepend {T : Stat} {lp : Bool} {brk cont : String} {st0 st1 : State} {pos : List Item}
+theorem Done.prepend {T : Stat} {lp : Bool × Bool} {brk cont : String} {st0 st1 : State} {pos : List Item}
     {out : CSem2.Outcome} {m : Nat} (hr : T.Reach m st0 st1)
     (h : Done T lp brk cont st1 pos out) : Done T lp brk cont st0 pos out := by
   cases out with
@@ -351,10 +351,10 @@ theorem Done.prepend {T : Stat} {lp : Bool} {brk cont : String} {st0 st1 : State
 /-- What closing the block does to a pending jump.  The next item is the label `l` whose block ends
     with the pending jump, or — nothing pending — with `dflt` (`none`: fall through into `l`;
     `some (jmp l')`: `funcjmp` before the label). -/
-theorem Post.close {T : Stat} {lp : Bool} {brk cont : String} {st0 : State} {pos post : List Item}
+theorem Post.close {T : Stat} {lp : Bool × Bool} {brk cont : String} {st0 : State} {pos post : List Item}
     {o : SCtx} {out : CSem2.Outcome} (h : Post T lp brk cont st0 pos o out) {l : String}
     (hits : T.S.its = pos ++ .lbl o.jump l [] :: post)
-    (hlp : lp = true → CanJump T.S brk ∧ CanJump T.S cont) :
+    (hlp : (lp.1 = true → CanJump T.S brk) ∧ (lp.2 = true → CanJump T.S cont)) :
     Done T lp brk cont st0 (pos ++ [.lbl o.jump l []]) out := by
   cases out with
   | normal s' =>
@@ -365,14 +365,14 @@ theorem Post.close {T : Stat} {lp : Bool} {brk cont : String} {st0 : State} {pos
     obtain ⟨h0, n, env', M', h1, h2⟩ := h
     rcases h2 with ⟨hj, h3⟩ | ⟨st, h3, h4⟩
     · rw [hj] at hits
-      obtain ⟨st, hs, hat⟩ := step_jmp_item T hits (hlp h0).1 env' M'
+      obtain ⟨st, hs, hat⟩ := step_jmp_item T hits (hlp.1 h0) env' M'
       exact ⟨h0, n + 1, env', M', st, h1, h3.trans (Reach.one hs), hat⟩
     · exact ⟨h0, n, env', M', st, h1, h3, h4⟩
   | cont s' =>
     obtain ⟨h0, n, env', M', h1, h2⟩ := h
     rcases h2 with ⟨hj, h3⟩ | ⟨st, h3, h4⟩
     · rw [hj] at hits
-      obtain ⟨st, hs, hat⟩ := step_jmp_item T hits (hlp h0).2 env' M'
+      obtain ⟨st, hs, hat⟩ := step_jmp_item T hits (hlp.2 h0) env' M'
       exact ⟨h0, n + 1, env', M', st, h1, h3.trans (Reach.one hs), hat⟩
     · exact ⟨h0, n, env', M', st, h1, h3, h4⟩
   | ret v =>
@@ -384,10 +384,10 @@ theorem Post.close {T : Stat} {lp : Bool} {brk cont : String} {st0 : State} {pos
     · exact ⟨n, st, r, h3, h4, h5⟩
 
 /-- The same when `funcjmp(l')` precedes the label: without a pending jump control goes to `l'`. -/
-theorem Post.closeJmp {T : Stat} {lp : Bool} {brk cont : String} {st0 : State} {pos post : List Item}
+theorem Post.closeJmp {T : Stat} {lp : Bool × Bool} {brk cont : String} {st0 : State} {pos post : List Item}
     {o : SCtx} {out : CSem2.Outcome} (h : Post T lp brk cont st0 pos o out) {l l' : String}
     (hits : T.S.its = pos ++ .lbl (some (o.jump.getD (.jmp l'))) l [] :: post)
-    (hlp : lp = true → CanJump T.S brk ∧ CanJump T.S cont) (hl' : CanJump T.S l') :
+    (hlp : (lp.1 = true → CanJump T.S brk) ∧ (lp.2 = true → CanJump T.S cont)) (hl' : CanJump T.S l') :
     match out with
     | .normal s' => ∃ n env' M' st, T.Reach n st0 st ∧ AtLabel T.S l' env' M' st ∧
         SInv T.S.cs T.σ T.vtys s' env' M'
@@ -402,14 +402,14 @@ theorem Post.closeJmp {T : Stat} {lp : Bool} {brk cont : String} {st0 : State} {
     obtain ⟨h0, n, env', M', h1, h2⟩ := h
     rcases h2 with ⟨hj, h3⟩ | ⟨st, h3, h4⟩
     · rw [hj] at hits
-      obtain ⟨st, hs, hat⟩ := step_jmp_item T hits (hlp h0).1 env' M'
+      obtain ⟨st, hs, hat⟩ := step_jmp_item T hits (hlp.1 h0) env' M'
       exact ⟨h0, n + 1, env', M', st, h1, h3.trans (Reach.one hs), hat⟩
     · exact ⟨h0, n, env', M', st, h1, h3, h4⟩
   | cont s' =>
     obtain ⟨h0, n, env', M', h1, h2⟩ := h
     rcases h2 with ⟨hj, h3⟩ | ⟨st, h3, h4⟩
     · rw [hj] at hits
-      obtain ⟨st, hs, hat⟩ := step_jmp_item T hits (hlp h0).2 env' M'
+      obtain ⟨st, hs, hat⟩ := step_jmp_item T hits (hlp.2 h0) env' M'
       exact ⟨h0, n + 1, env', M', st, h1, h3.trans (Reach.one hs), hat⟩
     · exact ⟨h0, n, env', M', st, h1, h3, h4⟩
   | ret v =>
@@ -421,7 +421,7 @@ theorem Post.closeJmp {T : Stat} {lp : Bool} {brk cont : String} {st0 : State} {
     · exact ⟨n, st, r, h3, h4, h5⟩
 
 /-- `Done` does not depend on the position for the outcomes that leave the statement. -/
-theorem Done.move {T : Stat} {lp : Bool} {brk cont : String} {st0 : State} {pos pos' : List Item}
+theorem Done.move {T : Stat} {lp : Bool × Bool} {brk cont : String} {st0 : State} {pos pos' : List Item}
     {out : CSem2.Outcome} (h : Done T lp brk cont st0 pos out) (hn : ∀ s', out ≠ .normal s') :
     Done T lp brk cont st0 pos' out := by
   cases out with
